@@ -593,13 +593,8 @@ class NodeDeref:
         )
 
     def __repr__(self):
-        return (
-            self.expression
-            + "["
-            + self.index
-            + (", " + self.default_value if self.default_value else "")
-            + "]"
-        )
+        default = f", {self.default_value}" if self.default_value else ""
+        return f"{self.expression}[{self.index}{default}]"
 
     def collectVars(self, freeVars, boundVars, additionalBoundVars):
         self.expression.collectVars(freeVars, boundVars, additionalBoundVars)
@@ -1027,20 +1022,14 @@ class NodeFor:
         )
 
     def __repr__(self):
+        identifiers = (
+            self.identifiers[0]
+            if len(self.identifiers) == 1
+            else "[" + ", ".join(self.identifiers) + "]"
+        )
         return (
-            "(for "
-            + (
-                self.identifiers[0]
-                if len(self.identifiers) == 1
-                else "[" + self.identifiers + "]"
-            )
-            + " in "
-            + self.what
-            + " "
-            + self.expression
-            + " do "
-            + self.block
-            + ")"
+            f"(for {identifiers} in {self.what} "
+            f"{self.expression} do {self.block})"
         )
 
     def collectVars(self, freeVars, boundVars, additionalBoundVars):
